@@ -38,6 +38,7 @@ type Solver struct {
 	NUnknown int
 	Seconds  float64
 	log      io.Writer
+	oneshot  bool
 	TimeoutS int
 	Errors   []string
 }
@@ -56,6 +57,12 @@ func NewSolver(name string, timeoutS int) (*Solver, error) {
 		return nil, fmt.Errorf("unknown solver %q", name)
 	}
 	s := &Solver{Name: name, argv: argv, TimeoutS: timeoutS}
+	if name == "cvc5int" {
+		// int-blasting loses its advantage in incremental mode (measured: 1.6 s one-shot vs unknown
+		// after 60 s incremental on the same query): one fresh process per query
+		s.oneshot = true
+		return s, nil
+	}
 	if p := os.Getenv("GOSYM_SMTLOG"); p != "" {
 		f, err := os.Create(p + "." + name + ".smt2")
 		if err == nil {
@@ -98,6 +105,9 @@ func (s *Solver) start() error {
 }
 
 func (s *Solver) Close() {
+	if s.oneshot {
+		return
+	}
 	if s.cmd != nil {
 		s.in.Close()
 		done := make(chan struct{})
@@ -165,6 +175,9 @@ func (s *Solver) readSexp() (string, error) {
 func (s *Solver) Check(conj []*Term, wantModel bool) (Result, *Model, error) {
 	t0 := time.Now()
 	defer func() { s.Seconds += time.Since(t0).Seconds() }()
+	if s.oneshot {
+		return s.checkOneShot(conj, wantModel)
+	}
 	if s.ndefs > 200000 {
 		s.restart()
 	}
@@ -343,4 +356,92 @@ func parseValues(txt string) []uint64 {
 		pos++ // )
 	}
 	return out
+}
+
+// checkOneShot runs a fresh solver process on a self-contained script for this query.
+func (s *Solver) checkOneShot(conj []*Term, wantModel bool) (Result, *Model, error) {
+	var sb strings.Builder
+	sb.WriteString("(set-logic ALL)\n")
+	decls, defs := collect(conj, map[int]bool{}, map[string]bool{})
+	for _, d := range decls {
+		sb.WriteString(d + "\n")
+	}
+	for _, d := range defs {
+		fmt.Fprintf(&sb, "(define-fun t%d () %s %s)\n", d.ID, sortSMT(d.W), body(d))
+	}
+	for _, c := range conj {
+		sb.WriteString("(assert " + ref(c) + ")\n")
+	}
+	sb.WriteString("(check-sat)\n")
+	syms := Syms(conj)
+	sels := Selects(conj)
+	if wantModel && (len(syms) > 0 || len(sels) > 0) {
+		sb.WriteString("(get-value (")
+		for _, y := range syms {
+			sb.WriteString(symSMT(y.Name) + " ")
+		}
+		for _, y := range sels {
+			sb.WriteString(ref(y.Args[0]) + " " + ref(y) + " ")
+		}
+		sb.WriteString("))\n")
+	}
+	f, err := os.CreateTemp("", "gosym-*.smt2")
+	if err != nil {
+		return Unknown, nil, err
+	}
+	defer os.Remove(f.Name())
+	f.WriteString(sb.String())
+	f.Close()
+	if s.log != nil {
+		fmt.Fprintln(s.log, sb.String())
+	}
+	argv := []string{"--produce-models", "--lang", "smt2", "--solve-bv-as-int=sum", fmt.Sprintf("--tlimit=%d", s.TimeoutS*1000), f.Name()}
+	out, _ := exec.Command("cvc5", argv...).CombinedOutput()
+	s.Queries++
+	txt := string(out)
+	first := strings.TrimSpace(txt)
+	if i := strings.IndexByte(first, '\n'); i >= 0 {
+		first = first[:i]
+	}
+	switch first {
+	case "unsat":
+		s.NUnsat++
+		return Unsat, nil, nil
+	case "sat":
+		s.NSat++
+	default:
+		s.NUnknown++
+		if first != "unknown" && first != "timeout" {
+			s.Errors = append(s.Errors, first)
+			return Unknown, nil, fmt.Errorf("%s: unexpected answer %q", s.Name, first)
+		}
+		return Unknown, nil, nil
+	}
+	model := &Model{Vals: map[string]uint64{}}
+	if wantModel && (len(syms) > 0 || len(sels) > 0) {
+		rest := txt[strings.Index(txt, "sat")+3:]
+		if strings.Contains(rest, "(error") {
+			s.Errors = append(s.Errors, "get-value: "+rest)
+			return Unknown, nil, fmt.Errorf("%s get-value error", s.Name)
+		}
+		vals := parseValues(strings.TrimSpace(rest))
+		if len(vals) != len(syms)+2*len(sels) {
+			s.Errors = append(s.Errors, "get-value parse: "+rest)
+			return Unknown, nil, fmt.Errorf("%s get-value: parsed %d of %d", s.Name, len(vals), len(syms)+2*len(sels))
+		}
+		for i, y := range syms {
+			model.Vals[y.Name] = vals[i]
+		}
+		for i, y := range sels {
+			idx, v := vals[len(syms)+2*i], vals[len(syms)+2*i+1]
+			if model.Sel == nil {
+				model.Sel = map[string]map[uint64]uint64{}
+			}
+			if model.Sel[y.Name] == nil {
+				model.Sel[y.Name] = map[uint64]uint64{}
+			}
+			model.Sel[y.Name][idx] = v
+		}
+	}
+	return Sat, model, nil
 }
